@@ -383,7 +383,7 @@ def counters(ctx, rule):
         msy = ctx.sym(m)
         incs = []
         for bi, si, st in m.iter_stmts():
-            if st["k"] != "assign" or m.blocks[bi]["cleanup"]:
+            if st["k"] != "assign" or m.blocks[bi]["cleanup"] or not st["place"]["p"]:
                 continue
             pl = msy.place(st["place"])
             pth = U.field_path(pl)
@@ -466,7 +466,7 @@ def only_store_add_feeds_index(ctx, rule):
             key2 = "push-and-advance:%s" % b.id
             incs = []
             for bk, si, st2 in b.iter_stmts():
-                if st2["k"] == "assign" and not b.blocks[bk]["cleanup"]:
+                if st2["k"] == "assign" and not b.blocks[bk]["cleanup"] and st2["place"]["p"]:
                     pth = U.field_path(sy.place(st2["place"]))
                     if pth and pth[2] == ["next_ix"]:
                         incs.append((bk, sy.rvalue(st2["rv"])))
